@@ -38,12 +38,14 @@ def run(chk, repo):
     chk.doc("R23.2", "FMMU bitmap writes under the lock; initial bitmap")
     chk.doc("R23.3", "tear down before releasing the election token")
     chk.doc("R23.4", "failure cleanup")
+    # (the who-may and model rules first: they do not depend on the shape
+    # of run(), and what they find stands when a shape rule gives up)
+    fs_effects(chk, repo)
+    netlink_answers(chk, repo)
+    errno_classes(chk, repo)
     election(chk, repo)
     bitmap(chk, repo)
     teardown(chk, repo)
-    errno_classes(chk, repo)
-    fs_effects(chk, repo)
-    netlink_answers(chk, repo)
 
 
 def netlink_answers(chk, repo):
@@ -136,9 +138,33 @@ def fs_effects(chk, repo):
                      "protocol's own")
     ci = repo.cls(C)
     n = 0
+    known = {m_ for m_, _, _ in FS_ALLOWED}
     for name, f in sorted(ci.methods.items()):
         if not isinstance(f, FUNC):
             continue
+        # a helper with one call site in a method of the protocol is a
+        # part of that method: its operations are looked at there, with
+        # the arguments of that call in the place of its parameters
+        as_name, subst = name, {}
+        if name not in known:
+            sites = [(g_name, c_) for g_name, g in ci.methods.items()
+                     if isinstance(g, FUNC) and g is not f
+                     for c_ in calls_in(g) if isinstance(
+                         c_.func, ast.Attribute) and c_.func.attr == name
+                     and unparse(c_.func.value) in ("self", "cls", ci.name,
+                                                    "type(self)")]
+            if len(sites) == 1 and sites[0][0] in known:
+                as_name = sites[0][0]
+                ps = param_names(f)
+                if ps and ps[0] in ("self", "cls") and not any(
+                        unparse(d) == "staticmethod"
+                        for d in f.decorator_list):
+                    ps = ps[1:]
+                for p_, a_ in zip(ps, sites[0][1].args):
+                    subst[p_] = unparse(a_)
+                for k_ in sites[0][1].keywords:
+                    if k_.arg:
+                        subst[k_.arg] = unparse(k_.value)
         for c in calls_in(f):
             callee = dotted(c.func) or ""
             mode = None
@@ -153,6 +179,9 @@ def fs_effects(chk, repo):
                 continue
             txt = " ".join(unparse(a) for a in c.args) + " " + " ".join(
                 unparse(k.value) for k in c.keywords)
+            for p_, a_ in subst.items():
+                import re as _re
+                txt = _re.sub(rf"\b{_re.escape(p_)}\b", a_, txt)
             if "lockfile" in txt:
                 kind = "own lock file"
             elif "tmpdir" in txt:
@@ -166,7 +195,7 @@ def fs_effects(chk, repo):
             else:
                 kind = f"`{txt.strip()[:40]}`"
             n += 1
-            ok = (name, callee, kind) in FS_ALLOWED
+            ok = (as_name, callee, kind) in FS_ALLOWED
             chk.ob("R23.6", f"{C}.{name}", f"{callee} on the {kind}", ok, c,
                    "a step of the election protocol" if ok else
                    f"`{unparse(c)[:60]}` in {name}(): not one of the "
@@ -601,8 +630,25 @@ def bitmap(chk, repo):
                  "randrange": ("hook", lambda *a: seq.pop(0))}
         return log, file_, funcs
     bad = []
-    for taken, draws in (((1,), (1, 1, 300)), ((1, 7, 8), (8, 7, 9)),
-                         ((1,), (511,)), ((1, 2, 3), (3, 2, 1, 64))):
+    # the ways the package itself opens the map: every further argument a
+    # call site passes is tried with a true value as well (a flag that
+    # lets one participant start from a clean map, say)
+    extra = [{}]
+    pn = param_names(init)
+    for m_ in repo.production_modules():
+        for c_ in ast.walk(m_.tree):
+            if isinstance(c_, ast.Call) and (dotted(c_.func) or "").split(
+                    ".")[-1] == "FMMULock":
+                for k_ in c_.keywords:
+                    if k_.arg and k_.arg in pn and {k_.arg: True} not in \
+                            extra:
+                        extra.append({k_.arg: True})
+                for i_, a_ in enumerate(c_.args[1:], 2):
+                    if i_ < len(pn) and {pn[i_]: True} not in extra:
+                        extra.append({pn[i_]: True})
+    for taken, draws, kw in [(t_, d_, k_) for k_ in extra for t_, d_ in (
+            ((1,), (1, 1, 300)), ((1, 7, 8), (8, 7, 9)),
+            ((1,), (511,)), ((1, 2, 3), (3, 2, 1, 64)))]:
         bm = bytearray(64)
         for t_ in taken:
             bm[t_ // 8] |= 1 << (t_ % 8)
@@ -610,9 +656,11 @@ def bitmap(chk, repo):
         me = Obj(fc, {})
         try:
             Evaluator(repo, fc.module, fc, funcs=funcs).call_function(
-                init, [me, "/run/x/y.fmmu"], cls=fc)
+                init, [me, "/run/x/y.fmmu"], dict(kw), cls=fc)
         except (Unknown, Raised) as e:
             raise AnalysisError(f"{F}.__init__: cannot be evaluated: {e}")
+        if kw:
+            taken = tuple(taken) + (f"opened with {kw}",)
         won = [d for d in draws if d not in taken][0]
         want = bytearray(bm)
         want[won // 8] |= 1 << (won % 8)
